@@ -10,7 +10,21 @@
    names, rows; the constructors are the model of C06), (ii) the separator is one character, (iii) repr / float() / _from_list /
    pandas' cell reader enter through the value-domain premise item_ok / the result row_back (instances are proved for None,
    booleans, every non-negative int, plain text, and floats under the oracles' contract), (iv) pandas quoting is outside the
-   modelled fragment. *)
+   modelled fragment.
+   Round 3: the EXCEL DOCUMENT is modelled (Codec/XlDoc.v: the two worksheets as abstract cell grids, writer and reader; the cell
+   tests of the reader's scanning loops, the guard of the header value and the field table are GENERATED from excel.py into
+   Gen/XlGen.v), tied to excel.py by a per-run comparison inside Coq (the model's cells vs the cells xlrd reads from the file
+   isotherm_to_xl wrote, cell by cell; the model's import vs the re-imported object). xl_*_partial: PARTIAL because they stop at
+   the constructor call, take the library (xlwt + xlrd) through the explicit premise `store (VStr s) = Ok (XText s)` and the
+   value-domain premises item_ok / pressure_ok (instances are proved for the library as it behaves: every number cell - 0, 0.0,
+   denormals, NaN, infinities - keeps the row scan going; floats, booleans, None and non-empty text are in the 'otherdata' domain),
+   and take pandas (dtype names, astype) as oracles inside row_back.
+   The AIF DOCUMENT is modelled (Codec/AifDoc.v: the block as an abstract item list - pairs and loops -, writer and reader; gemmi is
+   the identity on item lists whose values are single CIF tokens), tied to aif.py by a per-run comparison inside Coq (the model's
+   items vs the items gemmi parses from the text isotherm_to_aif wrote, item by item; the model's import vs the re-imported object).
+   aif_*_partial: the `_pygaps_` metadata pairs only (writer: appended in dictionary order; reader: read back as the dictionary for
+   values in the domain cast_string(str(v).strip("'")) = v); the named tags, unit strings, loops and the model pairs are covered by
+   the per-run comparison and by witnesses, not by a general theorem. *)
 From Coq Require Import QArith ZArith NArith String List Bool Ascii.
 From PG Require Import Lib.Py Codec.PyVal Codec.JsonDoc Codec.CastString Codec.CsvDoc.
 Import ListNotations.
@@ -170,3 +184,186 @@ Theorem csv_model_rmse_text_refuted :
                        ("loading_range", VStr "list:(0 2)"); ("parameters", VDict [("K", VStr "float:2.0")])])).
 Proof. exact w_rmse_text. Qed.
 Print Assumptions csv_model_rmse_text_refuted.
+
+(* ================================================================ the Excel document (Codec/XlDoc.v, Gen/XlGen.v) *)
+From PG Require Import Codec.XlCell Gen.XlGen Codec.XlDoc Codec.XlProofs.
+(* the GENERATED cell tests of the reader: a NUMBER cell - whatever its value, in particular a pressure of exactly 0 - never ends the
+   scan for the last data row, for the last model parameter, for the last header column or for the last 'otherdata' row *)
+Theorem xl_number_cell_never_ends_a_scan : forall v : pyval, numeric v = true ->
+  xl_data_stop (XNum v) = false /\ xl_param_stop (XNum v) = false /\ xl_col_stop (XNum v) = false /\ xl_other_stop (XNum v) = false.
+Proof. exact number_never_stops. Qed.
+Print Assumptions xl_number_cell_never_ends_a_scan.
+(* the row scan counts every leading row whose first cell does not stop it *)
+Theorem xl_row_scan : forall (stop : xcell -> bool) (drs rest : list (list xcell)),
+  Forall (fun r : list xcell => stop (at_col 0 r) = false) drs ->
+  scan_rows stop (drs ++ rest)%list = (length drs + scan_rows stop rest)%nat.
+Proof. exact scan_rows_all. Qed.
+Print Assumptions xl_row_scan.
+(* induction over the metadata list: the rows of the 'otherdata' sheet written for a dictionary in the value domain are read back as
+   that dictionary *)
+Theorem xl_metadata_roundtrip_partial : forall store : pyval -> res xcell,
+  (forall s : string, s <> "" -> store (VStr s) = Ok (XText s)) ->
+  forall (d : list (string * pyval)) (rows rest : list (list xcell)) (acc : dict),
+  Forall (item_ok store) d -> mapM (pair_row store) d = Ok rows ->
+  read_other (rows ++ rest)%list acc = read_other rest (dict_update acc d).
+Proof. exact read_other_rows. Qed.
+Print Assumptions xl_metadata_roundtrip_partial.
+(* induction over the parameter list of a model *)
+Theorem xl_parameters_roundtrip_partial : forall store : pyval -> res xcell,
+  (forall s : string, s <> "" -> store (VStr s) = Ok (XText s)) ->
+  forall (ps : list (string * pyval)) (rows rest : list (list xcell)) (acc : dict),
+  Forall (param_ok store) ps -> mapM (pair_row store) ps = Ok rows ->
+  read_params (rows ++ rest)%list acc = read_params rest (dict_update acc ps).
+Proof. exact read_params_rows. Qed.
+Print Assumptions xl_parameters_roundtrip_partial.
+(* induction over the row list: the reader's table on the sheet the writer produced gives back the column names and EVERY row, in
+   order, with its adsorption / desorption mark and with every value through the library and the recorded dtype (row_back) *)
+Theorem xl_rows_roundtrip_partial :
+  forall (store : pyval -> res xcell) (dtype_of : string -> string) (astype1 : string -> pyval -> res pyval),
+  (forall s : string, s <> "" -> store (VStr s) = Ok (XText s)) ->
+  forall (pk lk : string) (r0 : row) (rs : list row) (hs : list (list xcell)) (tl : sheet),
+  length hs = xl_type_row -> pk <> "" -> lk <> "" -> pk <> "branch" -> lk <> "branch" ->
+  Forall (fun k : string => k <> "" /\ k <> "branch" /\ dtype_of k <> "") (other_keys pk lk r0) ->
+  Forall (pressure_ok store pk) (r0 :: rs) ->
+  point_rows store dtype_of pk lk (r0 :: rs) = Ok tl ->
+  read_table astype1 (hs ++ tl)%list =
+  bind (mapM (row_back store dtype_of astype1 pk lk (other_keys pk lk r0)) (r0 :: rs)) (fun rows' : list row => Ok (SPoint pk lk rows')).
+Proof. exact read_table_written. Qed.
+Print Assumptions xl_rows_roundtrip_partial.
+(* the reader applied to the writer's workbook, up to the constructor call: metadata-only and point isotherms *)
+Theorem xl_roundtrip_base_partial :
+  forall (store : pyval -> res xcell) (literal : string -> res pyval) (astype1 : string -> pyval -> res pyval),
+  (forall s : string, s <> "" -> store (VStr s) = Ok (XText s)) ->
+  forall (d : dict) (hs os : sheet),
+  header_rows store d = Ok hs -> other_rows store d = Ok os -> Forall (item_ok store) (other_items d) ->
+  xl_parse literal astype1 ((hs ++ [[XText type_label; XText "metadata"]])%list, os) =
+  bind (header_back store d) (fun hd : dict =>
+  bind (xl_pop_version (dict_update (hd ++ [("isotherm_data", VStr "metadata")])%list (other_items d))) (fun raw : dict =>
+  bind (regroup (ddel "iso_id" (ddel "isotherm_data" raw))) (fun raw0 : dict => Ok (raw0, SBase)))).
+Proof. exact xl_parse_base. Qed.
+Print Assumptions xl_roundtrip_base_partial.
+Theorem xl_roundtrip_partial :
+  forall (store : pyval -> res xcell) (dtype_of : string -> string) (literal : string -> res pyval) (astype1 : string -> pyval -> res pyval),
+  (forall s : string, s <> "" -> store (VStr s) = Ok (XText s)) ->
+  forall (d : dict) (hs os : sheet) (pk lk : string) (r0 : row) (rs : list row) (tl : sheet),
+  header_rows store d = Ok hs -> other_rows store d = Ok os -> Forall (item_ok store) (other_items d) ->
+  pk <> "" -> lk <> "" -> pk <> "branch" -> lk <> "branch" ->
+  Forall (fun k : string => k <> "" /\ k <> "branch" /\ dtype_of k <> "") (other_keys pk lk r0) ->
+  Forall (pressure_ok store pk) (r0 :: rs) ->
+  point_rows store dtype_of pk lk (r0 :: rs) = Ok tl ->
+  xl_parse literal astype1 ((hs ++ tl)%list, os) =
+  bind (header_back store d) (fun hd : dict =>
+  bind (mapM (row_back store dtype_of astype1 pk lk (other_keys pk lk r0)) (r0 :: rs)) (fun rows' : list row =>
+  bind (xl_pop_version (dict_update (hd ++ [("isotherm_data", VStr "data")])%list (other_items d))) (fun raw : dict =>
+  bind (regroup (ddel "iso_id" (ddel "isotherm_data" raw))) (fun raw0 : dict => Ok (raw0, SPoint pk lk rows'))))).
+Proof. exact xl_parse_point. Qed.
+Print Assumptions xl_roundtrip_partial.
+(* the premises hold for the library as it behaves (xl_store is compared with xlwt + xlrd cell by cell on every run): non-empty text is
+   stored as text; a row whose pressure is ANY number satisfies pressure_ok; floats / nan / inf / booleans / None / non-empty text
+   are in the value domain of the 'otherdata' sheet; float parameters are in the domain of the model block *)
+Theorem xl_library_text : forall (big : list (Z * Q)) (s : string), s <> "" -> xl_store big (VStr s) = Ok (XText s).
+Proof. exact xl_store_text. Qed.
+Print Assumptions xl_library_text.
+Theorem xl_any_number_pressure_ok : forall (big : list (Z * Q)) (pk : string) (r : row),
+  (forall v : pyval, dget pk (r_cells r) = Some v -> is_number v = true) -> pressure_ok (xl_store big) pk r.
+Proof. exact xl_pressure_number_ok. Qed.
+Print Assumptions xl_any_number_pressure_ok.
+Theorem xl_value_domain : forall (big : list (Z * Q)) (k : string) (v : pyval), k <> "" -> xl_scalar v = true -> item_ok (xl_store big) (k, v).
+Proof. exact xl_item_ok. Qed.
+Print Assumptions xl_value_domain.
+Theorem xl_parameter_domain : forall (big : list (Z * Q)) (k : string) (q : Q), k <> "" -> param_ok (xl_store big) (k, VFloat q).
+Proof. exact xl_param_ok. Qed.
+Print Assumptions xl_parameter_domain.
+(* the hypotheses are satisfiable: the generated layout is the one the writer model assumes; a table that goes back to vacuum (pressure
+   exactly 0 in the first, a middle and the last row) with falsy metadata (0.0, False) is written and read back completely *)
+Example xl_layout_canonical : fields_canonical = true.
+Proof. exact canonical. Qed.
+Example xl_witness_zero_pressure :
+  exists (wb : sheet * sheet) (raw : dict),
+    xl_book (xl_store []) w_dtype w_str w_xl_iso = Ok wb /\
+    xl_parse w_lit xl_astype1 wb = Ok (raw, SPoint "pressure" "loading" w_xl_rows) /\
+    dget "leak" raw = Some (VFloat 0) /\ dget "checked" raw = Some (VBool false) /\ dget "temperature" raw = Some (VFloat 77).
+Proof. exact w_xl_zero_pressure. Qed.
+Example xl_witness_rows_ok : Forall (pressure_ok (xl_store []) "pressure") w_xl_rows.
+Proof. exact w_xl_rows_ok. Qed.
+(* REFUTED (silent changes, replayed on the implementation by ./check C07): an int comes back as a float; an empty text comes back as
+   None; a falsy header value (temperature 0) is not written and is read as None (the import is then refused) *)
+Theorem xl_int_becomes_float_refuted : exists c : xcell, xl_store [] (VInt 7) = Ok c /\ other_value c = VFloat 7 /\ cell_value c = VFloat 7.
+Proof. exact xl_int_becomes_float. Qed.
+Print Assumptions xl_int_becomes_float_refuted.
+Theorem xl_empty_text_becomes_none_refuted : exists c : xcell, xl_store [] (VStr "") = Ok c /\ other_value c = VNone.
+Proof. exact xl_empty_text_becomes_none. Qed.
+Print Assumptions xl_empty_text_becomes_none_refuted.
+Theorem xl_zero_temperature_dropped_refuted :
+  header_cell (xl_store []) [("temperature", VFloat 0)] ("temperature", "Experiment temperature (K)", 1%nat, 0%nat) = Ok XEmpty /\ header_value XEmpty = VNone.
+Proof. exact xl_zero_temperature_dropped. Qed.
+Print Assumptions xl_zero_temperature_dropped_refuted.
+
+(* ================================================================ the AIF document (Codec/AifDoc.v) *)
+From PG Require Import Codec.AifDoc Codec.AifProofs.
+(* val.strip("'") undoes the quoting of a text that neither begins nor ends with a quote *)
+Theorem aif_strip_undoes_quote : forall t : string, first_not_q t = true -> last_not_q t = true -> strip_q (quote t) = t.
+Proof. exact strip_quote. Qed.
+Print Assumptions aif_strip_undoes_quote.
+(* induction over the metadata list: the `_pygaps_<key> '<str(value)>'` pairs of a dictionary in the value domain are read back as that
+   dictionary, whatever items follow and whatever was read before *)
+Theorem aif_metadata_roundtrip_partial :
+  forall (repr_float : Q -> string) (float_of : string -> pyval) (from_list : string -> res pyval) (to_numeric : list string -> list pyval)
+         (d : list (string * pyval)) (ps rest : list item) (st : rstate),
+  Forall (aif_item_ok repr_float float_of from_list) d -> mapM (meta_item repr_float) d = Ok ps ->
+  read_items float_of from_list to_numeric (ps ++ rest)%list st =
+  read_items float_of from_list to_numeric rest (with_raw st (dict_update (st_raw st) d)).
+Proof. exact read_meta_pairs. Qed.
+Print Assumptions aif_metadata_roundtrip_partial.
+(* the writer appends exactly these pairs, in dictionary order, when the keys have no blank, are distinct and their tags are new *)
+Theorem aif_metadata_written_partial : forall (repr_float : Q -> string) (d : list (string * pyval)) (items ps : list item),
+  Forall (fun kv : string * pyval => no_space (fst kv) = true) d -> nodup_keys d = true ->
+  forallb (fun k : string => negb (mem ("_pygaps_" ++ k) (pair_tags items))) (keys d) = true ->
+  mapM (meta_item repr_float) d = Ok ps -> meta_pairs repr_float d items = Ok (items ++ ps)%list.
+Proof. exact meta_pairs_appended. Qed.
+Print Assumptions aif_metadata_written_partial.
+(* the value domain: every non-negative int (induction over numerals), booleans, None, plain text without outer quotes, floats under
+   the contract of repr / float() *)
+Theorem aif_value_domain_int : forall (repr_float : Q -> string) (float_of : string -> pyval) (from_list : string -> res pyval) (k : string) (n : N),
+  aif_item_ok repr_float float_of from_list (k, VInt (Z.of_N n)).
+Proof. exact aif_item_nat. Qed.
+Print Assumptions aif_value_domain_int.
+Theorem aif_value_domain_bool_none : forall (repr_float : Q -> string) (float_of : string -> pyval) (from_list : string -> res pyval) (k : string),
+  (forall b : bool, aif_item_ok repr_float float_of from_list (k, VBool b)) /\ aif_item_ok repr_float float_of from_list (k, VNone).
+Proof. exact aif_item_bool_none. Qed.
+Print Assumptions aif_value_domain_bool_none.
+Theorem aif_value_domain_text : forall (repr_float : Q -> string) (float_of : string -> pyval) (from_list : string -> res pyval) (k s : string),
+  first_not_q s = true -> last_not_q s = true ->
+  CastString.is_none s = false -> is_bool s = false -> isnumeric s = false -> is_float s = false -> is_list s = false ->
+  aif_item_ok repr_float float_of from_list (k, VStr s).
+Proof. exact aif_item_text. Qed.
+Print Assumptions aif_value_domain_text.
+Theorem aif_value_domain_float_partial : forall (repr_float : Q -> string) (float_of : string -> pyval) (from_list : string -> res pyval) (k : string) (q : Q),
+  first_not_q (repr_float q) = true -> last_not_q (repr_float q) = true ->
+  is_float (repr_float q) = true -> isnumeric (repr_float q) = false -> CastString.is_none (repr_float q) = false ->
+  is_bool (repr_float q) = false -> float_of (repr_float q) = VFloat q ->
+  aif_item_ok repr_float float_of from_list (k, VFloat q).
+Proof. exact aif_item_float. Qed.
+Print Assumptions aif_value_domain_float_partial.
+(* witness: a table that starts and ends at a pressure of exactly 0, with falsy metadata (0.0, False, 0), is written and read back *)
+Example aif_witness_zero_roundtrip :
+  exists (items : list item) (raw : dict),
+    aif_items w_arepr (w_aif_iso w_aif_rows) = Ok items /\
+    aif_parse w_afloat w_alist w_anum items = Ok (raw, SPoint "pressure" "loading" w_aif_rows) /\
+    dget "leak" raw = Some (VFloat 0) /\ dget "checked" raw = Some (VBool false) /\ dget "count" raw = Some (VInt 0) /\
+    dget "temperature" raw = Some (VFloat 77).
+Proof. exact w_aif_zero_roundtrip. Qed.
+(* REFUTED (silent changes, replayed on the implementation by ./check C07): desorption-marked points that are not all after the
+   adsorption-marked ones come back re-ordered; outer quotes of a text are lost; a negative int is read through float() *)
+Theorem aif_interleaved_marks_refuted :
+  exists (items : list item) (raw : dict),
+    aif_items w_arepr (w_aif_iso w_aif_interleaved) = Ok items /\
+    aif_parse w_afloat w_alist w_anum items = Ok (raw, SPoint "pressure" "loading" [w_arow 0 0 false; w_arow (1 # 2) 2 false; w_arow 2 2 true]).
+Proof. exact w_aif_regrouped. Qed.
+Print Assumptions aif_interleaved_marks_refuted.
+Theorem aif_outer_quotes_refuted : strip_q (quote "'quoted'") = "quoted".
+Proof. exact w_aif_quotes_lost. Qed.
+Print Assumptions aif_outer_quotes_refuted.
+Theorem aif_negative_int_refuted : fstr w_arepr (VInt (-5)) = Ok "-5" /\ AifDoc.cast w_afloat w_alist (strip_q (quote "-5")) = Ok (w_afloat "-5").
+Proof. exact w_aif_negative_int. Qed.
+Print Assumptions aif_negative_int_refuted.
